@@ -1,15 +1,60 @@
 (* Property C04 — Dijkstra returns exactly the shortest distances and shortest paths.
-   Only pinned statements; proofs live in Proofs/ShortestPathOk.v.  The statements
-   are repeated in coq/pins/C04.v and re-checked on every run.
+   Only pinned statements; proofs live in Proofs/.  The statements are repeated in
+   coq/pins/C04.v and re-checked on every run.
 
-   Route: verified checkers.  [check_dist] / [check_result] are executable; the
-   theorems below say that whatever they accept satisfies the property's
-   statement; Run/RunDijkstra.v evaluates them on the answer of the transcribed
-   algorithm (Model/Dijkstra.v) for every generated call, and that answer is
-   compared with the implementation's. *)
+   Two routes, both unbounded (every graph state, source, option tuple):
+   (A) the transcribed algorithm (Model/Dijkstra.v) itself: C04_model_* —
+       loop invariants over the pop loop and the row fold (Proofs/DijkstraLoopOk.v,
+       DijkstraPathsOk.v, DijkstraCompleteOk.v, DijkstraNoErrOk.v, DijkstraTotalOk.v);
+   (B) verified checkers: C04_check_* — whatever [check_dist] / [check_result]
+       accept satisfies the statement; Run/RunDijkstra.v evaluates them on the
+       model's answer of every generated call (flag compared with the harness).
+   The per-call statement is [result_ok] in Spec/ShortestPathDef.v. *)
 From Coq Require Import List Bool ZArith QArith.
+From GV Require Import Base.Outcome Model.GState Model.Query Model.Dijkstra.
 From GV Require Import Spec.ShortestPathDef Spec.ShortestPathCheck Proofs.ShortestPathOk.
+From GV Require Import Proofs.DijkstraLoopOk Proofs.DijkstraModelOk.
 Import ListNotations.
+
+(* ---------------------------------------------------------------- (A) the model *)
+
+(* Total correctness of the full algorithm: on a well-formed adjacency (one row per
+   node, neighbour indexes in range, one entry per neighbour, < 2^31-1 entries),
+   non-negative traversal costs (hop count: all 1), a non-negative cutoff and a valid
+   source index, [dijkstra] returns [Ok r] — no panic, no fuel exhaustion, no
+   ContradictoryPaths — and [r] satisfies the whole per-call statement:
+   reported iff reachable (within the cutoff; the target when one is given), exact
+   distances, every path a shortest path from the source to its node, no paths when
+   with_paths=false, exactly one when first_only, and — positive costs,
+   first_only=false — a duplicate-free list of ALL shortest paths. *)
+Theorem C04_model_dijkstra_total : forall (T A : Type) (g : gstate T A) (weighted : bool) (src : nat)
+    (target : option nat) (cutoff : option Q) (fo wp : bool),
+  wf_adj g -> nonneg (wgraph_of weighted (successors_vec g)) ->
+  cutoff_exceeded cutoff 0 = false -> (src < number_of_nodes g)%nat ->
+  exists r, dijkstra g weighted src target cutoff fo wp = Ok r /\
+            result_ok (wgraph_of weighted (successors_vec g)) src target cutoff fo wp (answer_of r).
+Proof. exact model_dijkstra_total. Qed.
+
+(* The same for the distance-only fast path (taken when all options are off). *)
+Theorem C04_model_fast_path_total : forall (T A : Type) (g : gstate T A) (weighted : bool) (src : nat),
+  wf_adj g -> nonneg (wgraph_of weighted (successors_vec g)) -> (src < number_of_nodes g)%nat ->
+  exists r, dijkstra_basic g weighted src = Ok r /\
+            distances_ok g weighted src None None r /\ forall t i, In (t, i) r -> sp_paths i = [].
+Proof. exact model_dijkstra_basic_total. Qed.
+
+(* Partial correctness needs less: any [Ok] answer is right as soon as the costs are
+   non-negative and there is one adjacency row per node. *)
+Theorem C04_model_dijkstra_ok : forall (T A : Type) (g : gstate T A) (weighted : bool) (src : nat),
+  nonneg (wgraph_of weighted (successors_vec g)) ->
+  length (successors_vec g) = number_of_nodes g ->
+  forall (target : option nat) (cutoff : option Q) (fo wp : bool) (r : list (nat * spinfo nat)),
+  (forall v row, nth_error (successors_vec g) v = Some row -> NoDup (map fst row)) ->
+  cutoff_exceeded cutoff 0 = false ->
+  dijkstra g weighted src target cutoff fo wp = Ok r ->
+  result_ok (wgraph_of weighted (successors_vec g)) src target cutoff fo wp (answer_of r).
+Proof. exact @model_dijkstra_ok. Qed.
+
+(* ---------------------------------------------------------------- (B) verified checkers *)
 
 (* an accepted vector is THE distance function: finite value = shortest-path
    length, None = unreachable.  No hypothesis on the sign of the costs. *)
@@ -19,8 +64,7 @@ Theorem C04_check_dist_sound : forall (g : wgraph) (s : nat) (d : dvec),
             (dget d t = None -> ~ reach g s t).
 Proof. exact check_dist_sound. Qed.
 
-(* an accepted answer of one call meets the statement of C04 (and the option
-   laws of C08) for that call: see [result_ok] / [entry_ok] in Spec/ShortestPathDef.v *)
+(* an accepted answer of one call meets the per-call statement *)
 Theorem C04_check_result_sound : forall (g : wgraph) (s : nat) (d : dvec) (target : option nat)
     (cutoff : option Q) (first_only with_paths : bool) (r : answer),
   check_dist g s d = true ->
